@@ -19,7 +19,13 @@ def run_k(ctx, out, harnesses, timeout, jobs=None, mem_gb=12):
     summary = []
     for r in results:
         j = r.to_json()
-        if r.status == 'FAIL':
+        if r.status == 'FAIL' and r.failed and 'expected panic did not occur' in r.failed[0]:
+            # concrete should_panic harness: the harness itself is the (input-free) counterexample
+            rep, detail = True, 'concrete harness returned normally'
+            j['native_playback'] = {'reproduced': True, 'detail': detail}
+            key = 'K:%s:no_panic' % family(r.harness)
+            out.add(Violation(key, '%s: %s' % (r.harness, r.failed[0]), replay={'engine': 'kani', 'harness': r.harness}, reproduced=True))
+        elif r.status == 'FAIL':
             rep, detail = kani.replay_native(ctx.tree, r.harness)
             j['native_playback'] = {'reproduced': rep, 'detail': detail}
             what = r.failed[-1] if r.failed else 'failed check'
